@@ -395,11 +395,8 @@ def gen_spec(rng, cls, n):
                 role = "objective"
         elif mode < 0.6:
             ix = sorted(rng.sample(range(n), rng.randint(1, min(6, n))))
-            if rng.random() < 0.4 and len(ix) > 2:
-                # not sorted (the smallest index stays first: a covering span of negative length raises)
-                rest = ix[1:]
-                rng.shuffle(rest)
-                ix = [ix[0]] + rest
+            if rng.random() < 0.5 and len(ix) > 1:
+                rng.shuffle(ix)              # any order: the covering span is (min, max + 1)
             kw = {"indices": tuple(ix)}
         else:
             budget = rng.choice(["max_edits", "max_edits", "max_edits_percent"])
